@@ -6,27 +6,36 @@ package internal
 
 // What the TinyLFU policy relies on: these operations touch nothing but the sketch / filter they are called on.
 //@ func (*BloomFilter).Init
+//@   names f, ins, fpp
 //@   trusted
 //@   modifies f.numHashes, f.bitsMask, f.bits
 //@ func (*BloomFilter).Put
+//@   names f, h
 //@   trusted
 //@   modifies f.bits[*]
 //@ func (*BloomFilter).Contains
+//@   names f, h
 //@   trusted
 //@ func (*BloomFilter).Reset
+//@   names f
 //@   trusted
 //@   modifies f.bits[*]
 //@ func (*CountMinSketch).Init
+//@   names c, width
 //@   trusted
 //@   modifies c.counters, c.mask, c.counters[*]
 //@ func (*CountMinSketch).Add
+//@   names c, h
 //@   trusted
 //@   modifies c.counters[*]
 //@ func (*CountMinSketch).Estimate
+//@   names c, h
 //@   trusted
 //@ func (*CountMinSketch).Reset
+//@   names c
 //@   trusted
 //@   modifies c.counters[*]
 //@ func ComputeHash
+//@   names k
 //@   trusted
 //@   pure
